@@ -110,6 +110,16 @@ func NewProtocol[G algebra.PrimeGroupElement[G, S], S algebra.PrimeFieldElement[
 		if s == nil {
 			return *new(G), proofs.ErrInvalidArgument.WithMessage("homomorphism input cannot be nil")
 		}
+		// s may come from the wire (the response of a proof): a vector of another length, or with a
+		// missing entry, must be refused here - ScalarDiagonal indexes it by the arity of the generators.
+		if len(s.Components()) != len(generators) {
+			return *new(G), proofs.ErrInvalidArgument.WithMessage("homomorphism input has %d components, expected %d", len(s.Components()), len(generators))
+		}
+		for _, c := range s.Components() {
+			if utils.IsNil(c) {
+				return *new(G), proofs.ErrInvalidArgument.WithMessage("homomorphism input has a nil component")
+			}
+		}
 		return generatorsVector.ScalarDiagonal(s).CoDiagonal(), nil
 	}
 
